@@ -1025,6 +1025,9 @@ pub proof fn lemma_well_formed_member_line_denotes_its_record(p: MemberParts, ta
 
 def build():
     u = Unit("u5_parser")
+    # the dispatcher's exact postcondition needs more than the default budget to be REFUTED on some wrong variants (three-space dispatch: `rlimit exceeded` at 30
+    # and 60, a failed postcondition within 10 s at 150); the unchanged tree uses a few percent of it
+    u.rlimit = 150
     u.raw(HEADER.replace("use std::cmp::Ordering;", "use std::cmp::Ordering;\nuse vstd::string::StringSliceAdditionalSpecFns;"), "header")
     u.raw("use std::str;\n", "glue")
     mp = u.source("src/mapping.rs")
